@@ -26,6 +26,8 @@ def run(ck):
     ck.rule("C08-O2", "payload: bytes [6, size-4) of qCompress(readAll())")
     ck.rule("C08-O3", "trailer: CRC-32 of the input then its size mod 2^32, each 4 bytes through qToLittleEndian, after the payload")
     ck.rule("C08-O4", "CRC-32: polynomial 0xEDB88320, init and final xor 0xFFFFFFFF, table[(crc ^ byte) & 0xFF] ^ (crc >> 8) over every byte read, 256-entry table built by 8 shift/xor steps")
+    ck.rule("C08-O6", "the file handed to compressFile() is complete on disk: rotate() closes or flushes the sink's own buffered QFile on every path before the rename and before the compression")
+    ck.require(closed_before_handover(ck, S, "C08-O6", "C08") >= 2, "rotate(): rename / compressFile hand-over sites not found")
     ck.rule("C08-O5", "ordering: rewind between the CRC pass and readAll; every write precedes close of the output; the original is removed only after that close; early returns precede any write or remove")
     fn = S.m["compressFile"]
     g = S.g(fn)
